@@ -13,4 +13,5 @@ var Registry = map[string]func(Args) error{
 	"gate": Gate,
 	"handshake": Handshake,
 	"watchdog": Watchdog,
+	"closenotify": CloseNotify,
 }
